@@ -590,7 +590,7 @@ var c12LagWrap bool
 // c12WhereLag: the predicate over lag(col) decides on the row BEFORE the one it is asked about — the first EmitSync
 // carries the values, the second (a row with nothing but an id) is the one whose acceptance is observed.
 func c12WhereLag(cond string, row map[string]interface{}) string {
-	s := streamsql.New(streamsql.WithDiscardLog())
+	s := streamsql.New(presetOpt(), streamsql.WithDiscardLog())
 	defer s.Stop()
 	if err := s.Execute("SELECT id FROM stream WHERE " + cond); err != nil {
 		return "err"
@@ -654,7 +654,7 @@ func c12SQL(toks []string) (string, []string) {
 }
 
 func c12Where(cond string, row map[string]interface{}) (string, string) {
-	s := streamsql.New(streamsql.WithDiscardLog())
+	s := streamsql.New(presetOpt(), streamsql.WithDiscardLog())
 	defer s.Stop()
 	if err := s.Execute("SELECT id FROM stream WHERE " + cond); err != nil {
 		return "err", "err"
